@@ -90,6 +90,14 @@ type Ent struct {
 }
 
 // Info is the compared part of a FileInfo.
+// permBits: the permission bits and the three special bits a Chmod can set (set-uid, set-gid, sticky).
+func permBits(m hackpadfs.FileMode) uint32 {
+	return uint32(m & (hackpadfs.ModePerm | hackpadfs.ModeSetuid | hackpadfs.ModeSetgid | hackpadfs.ModeSticky))
+}
+
+// SpecialBits are the mode bits beyond rwx that Chmod carries.
+var SpecialBits = []uint32{uint32(hackpadfs.ModeSetuid), uint32(hackpadfs.ModeSetgid), uint32(hackpadfs.ModeSticky)}
+
 type Info struct {
 	Name  string
 	IsDir bool
@@ -141,7 +149,7 @@ func toInfo(fi hackpadfs.FileInfo) *Info {
 	if fi == nil {
 		return nil
 	}
-	in := &Info{Name: fi.Name(), IsDir: fi.IsDir(), Perm: uint32(fi.Mode().Perm()), Mtime: fi.ModTime().Unix()}
+	in := &Info{Name: fi.Name(), IsDir: fi.IsDir(), Perm: permBits(fi.Mode()), Mtime: fi.ModTime().Unix()}
 	if fi.Mode().IsRegular() {
 		in.Size = fi.Size()
 	}
@@ -433,7 +441,7 @@ func walkFS(fs hackpadfs.FS, name string, snap Snap, depth int) {
 		return
 	}
 	if fi.IsDir() {
-		n := Node{Kind: 'd', Perm: uint32(fi.Mode().Perm()), Own: own(fi.Sys())}
+		n := Node{Kind: 'd', Perm: permBits(fi.Mode()), Own: own(fi.Sys())}
 		des, err := hackpadfs.ReadDir(fs, name)
 		if err != nil {
 			n.Err = "readdir: " + errClass(err)
@@ -452,7 +460,7 @@ func walkFS(fs hackpadfs.FS, name string, snap Snap, depth int) {
 		}
 		return
 	}
-	n := Node{Kind: 'f', Perm: uint32(fi.Mode().Perm()), Size: fi.Size(), Own: own(fi.Sys())}
+	n := Node{Kind: 'f', Perm: permBits(fi.Mode()), Size: fi.Size(), Own: own(fi.Sys())}
 	if !fi.Mode().IsRegular() {
 		n.Kind = '?'
 	}
@@ -479,7 +487,7 @@ func walkOS(root, name string, snap Snap) {
 		return
 	}
 	if fi.IsDir() {
-		n := Node{Kind: 'd', Perm: uint32(fi.Mode().Perm()), Own: own(fi.Sys())}
+		n := Node{Kind: 'd', Perm: permBits(fi.Mode()), Own: own(fi.Sys())}
 		des, err := os.ReadDir(p)
 		if err != nil {
 			n.Err = "readdir: " + errClass(err)
@@ -494,7 +502,7 @@ func walkOS(root, name string, snap Snap) {
 		}
 		return
 	}
-	n := Node{Kind: 'f', Perm: uint32(fi.Mode().Perm()), Size: fi.Size(), Own: own(fi.Sys())}
+	n := Node{Kind: 'f', Perm: permBits(fi.Mode()), Size: fi.Size(), Own: own(fi.Sys())}
 	if !fi.Mode().IsRegular() {
 		n.Kind = '?'
 		snap[name] = n
